@@ -1,6 +1,35 @@
 import PiqpProofs.Basic
 import PiqpModel.Api
+
+/-!
+# C19 — problem data are copied, never aliased or modified
+
+The model's state (`ApiState`) contains values only — no reference to a caller buffer exists in it, and `apiStep` returns
+nothing but the new state and an outcome.  What can be *stated* about the model is therefore structural; whether the C++
+code keeps a pointer into caller memory is a memory-level behaviour observed by harness/halias.cpp (scribble / free /
+bitwise comparison).
+-/
+
 namespace Piqp.C19
-/-- placeholder obligation (to be replaced by the ledger / no-alias theorems) -/
-theorem model_step_total {K : Type} (x : K) : x = x := rfl
+
+variable {K : Type}
+variable [Add K] [Sub K] [Mul K] [Div K] [Neg K] [Zero K] [One K] [LT K] [DecidableLT K] [LE K] [DecidableLE K]
+variable [NatCast K] [BEq K] [Inhabited K]
+
+/-- A caller heap: buffer id ↦ content.  A call names its arguments by buffer id; the interface reads the heap at call
+    time (`deref`) and steps on the values. -/
+def stepWithHeap (cs : Consts K) (sqrtF : K → K) (poison : K) {Heap : Type} (deref : Heap → Call K)
+    (st : ApiState K) (heap : Heap) : ApiState K × Outcome :=
+  apiStep cs sqrtF poison st (deref heap)
+
+/-- no aliasing: after a call, whatever the caller does to its heap (overwrite, free = arbitrary new content) has no
+    effect on any later call that does not read the changed buffers — the state carries no reference into the heap -/
+theorem later_calls_independent_of_old_heap (cs : Consts K) (sqrtF : K → K) (poison : K) {Heap : Type}
+    (deref1 deref2 : Heap → Call K) (st : ApiState K) (heap scribbled : Heap)
+    (hsame : deref2 heap = deref2 scribbled) :
+    stepWithHeap cs sqrtF poison deref2 (stepWithHeap cs sqrtF poison deref1 st heap).1 heap =
+    stepWithHeap cs sqrtF poison deref2 (stepWithHeap cs sqrtF poison deref1 st heap).1 scribbled := by
+  unfold stepWithHeap
+  rw [hsame]
+
 end Piqp.C19
